@@ -465,6 +465,13 @@ func Run(c *common.Ctx) error {
 	if err = r.bigEntries(); err != nil {
 		return err
 	}
+	// (h) CRLs dated in the reader's future; (i) a read in flight across a completed store
+	if err = r.futureDated(); err != nil {
+		return err
+	}
+	if err = r.readAcrossStore(); err != nil {
+		return err
+	}
 	// (c) free-running goroutines and processes - supporting evidence
 	if err = r.freeAlternating(); err != nil {
 		return err
@@ -482,6 +489,8 @@ func Run(c *common.Ctx) error {
 	c.Note("shared content: histories of 2-3 Set calls on one URL whose bundles share a base CRL (with/without delta, two deltas, identical twice, A-B-A, shared delta ...), run by goroutines of one FileCache and by goroutine/child-process mixes, sequentially and interleaved, a Get after every completed Set: the result must be the CONTENT (base and delta) of a latest completed Set.")
 	c.Note("numbered bundles: base CRL #9 with delta CRLs (real delta CRL indicator) numbered below / equal / above the base and issued (thisUpdate) before / after it, alone and as second write after another delta: the Get after the completed Set returns exactly that base AND that delta.")
 	c.Note("big entries: bundles of 20 MiB, 14+14 MiB (base+delta) and 26 MiB DER in quick, plus 1 KiB, 1 MiB, 8 MiB and 31 MiB in thorough (the fetcher accepts CRLs up to 32 MiB; the entry is JSON with base64, x4/3): stored by a stepped writer and read back complete by both FileCache instances after every step.")
+	c.Note("future-dated bundles: base and / or delta CRL with thisUpdate 1-3 s, 5 min, 3 days ahead of the reader's clock (CA clock ahead, pre-generated CRLs) and exactly now, as first store and replacing a complete entry: the Get after the completed Set returns that bundle (not an error, not a miss).")
+	c.Note("read across a store: one FileCache value, reader R1 is inside a slow Get of a big old entry, Set(url, newer) runs and returns, then R2 starts its Get while R1 is still busy: R2 must return the newer bundle (R1: old or new); several delays and old-entry sizes.")
 	c.Note("write faults: child-process writer with RLIMIT_FSIZE 0 / 1 / half the entry / 4096 (SIGXFSZ ignored, the writer keeps running), small and large entries, with and without an existing entry, alone and interleaved with a goroutine writer: key absent or complete (old or new), Set reports the error iff its write failed.")
 	c.Note("free-running goroutines and processes: supporting evidence only (the model cannot predict which allowed result a free Get sees; 'agree' there means every result is one the model allows).")
 	return nil
@@ -1261,6 +1270,150 @@ func (r *runner) bigEntries() error {
 		// the CRL bytes are not needed any more: let the classification forget them
 		r.pool.forget(base)
 		r.pool.forget(delta)
+	}
+	return nil
+}
+
+// futureDated: CRLs whose thisUpdate lies ahead of the reader's clock are legal content.
+func (r *runner) futureDated() error {
+	mint := func(number int64, ahead time.Duration, deltaOf int64) (*bund, error) {
+		b, err := makeCRL(r.ca, number, r.c.WorkDir, crlOpts{entries: 3, absLen: smallLen, thisUpdate: ahead, deltaOf: deltaOf})
+		if err != nil {
+			return nil, err
+		}
+		return r.pool.add(b), nil
+	}
+	pastBase, err := mint(40, -2*time.Hour, 0)
+	if err != nil {
+		return err
+	}
+	pastDelta, err := mint(41, -time.Hour, 40)
+	if err != nil {
+		return err
+	}
+	offsets := []struct {
+		name string
+		d    time.Duration
+	}{{"3s", 3 * time.Second}, {"5min", 5 * time.Minute}, {"3days", 72 * time.Hour}, {"now", time.Nanosecond}, {"1s", time.Second}}
+	for oi, off := range offsets {
+		fb, err := mint(int64(50+oi), off.d, 0)
+		if err != nil {
+			return err
+		}
+		fd, err := mint(int64(60+oi), off.d, 40)
+		if err != nil {
+			return err
+		}
+		contents := []struct {
+			name        string
+			base, delta *bund
+		}{{"base", fb, nil}, {"delta", pastBase, fd}, {"base+delta", fb, fd}, {"base,past-delta", fb, pastDelta}}
+		for _, ct := range contents {
+			for _, pre := range []bool{false, true} {
+				for _, child := range []bool{false, true} {
+					if child && !r.c.Thorough() && (pre || oi > 1) {
+						continue
+					}
+					var plans []wplan
+					if pre {
+						plans = append(plans, wplan{key: 0, base: pastBase, delta: pastDelta})
+					}
+					plans = append(plans, wplan{key: 0, base: ct.base, delta: ct.delta, child: child})
+					n := len(plans)
+					var order []int
+					for i := 0; i < n; i++ {
+						order = append(order, i, i, i, i)
+					}
+					if err := r.one("future-dated-"+off.name+":"+ct.name, 1, plans, func(w *world) []Ev {
+						return trace(w, full(n), order, map[int][]int{4 * n: {0}})
+					}); err != nil {
+						return err
+					}
+				}
+			}
+		}
+	}
+	return nil
+}
+
+// readAcrossStore: a reader that STARTS after a store has returned gets that store's bundle (or a
+// newer one) even when another reader of the URL, started earlier on the same FileCache value, is
+// still busy with the old entry.
+func (r *runner) readAcrossStore() error {
+	file.VerifHook = nil
+	defer installHook()
+	pl := r.pool
+	olds := []*bund{pl.huge, pl.large[0], pl.huge, pl.large[1]}
+	delays := []time.Duration{0, 300 * time.Microsecond, 2 * time.Millisecond, 10 * time.Millisecond, 40 * time.Millisecond}
+	rounds := 2
+	if r.c.Thorough() {
+		rounds = 8
+	}
+	for round := 0; round < rounds; round++ {
+		for oi, old := range olds {
+			for di, d := range delays {
+				plans := []wplan{{key: 0, base: old}, {key: 0, base: pl.small[(oi+di)%len(pl.small)], delta: pl.deltas[di%len(pl.deltas)]}}
+				w, err := newWorld(r.c, r.pool, 1, plans)
+				if err != nil {
+					return err
+				}
+				ctx := context.Background()
+				if err := w.cache.Set(ctx, w.urls[0], w.bundle(0)); err != nil {
+					w.cleanup()
+					return err
+				}
+				// R1 (several of them): slow Gets of the old entry on the shared FileCache value
+				nR1 := 1 + (oi+di)%3
+				r1 := make(chan ReadObs, nR1)
+				for k := 0; k < nR1; k++ {
+					go func() { r1 <- w.get(0) }()
+				}
+				time.Sleep(d)
+				if err := w.cache.Set(ctx, w.urls[0], w.bundle(1)); err != nil {
+					w.cleanup()
+					return err
+				}
+				// R2 starts after the store returned
+				r2 := w.get(0)
+				busy := len(r1) < nR1 // some R1 had not finished when R2 returned
+				seen := map[SeenObs]bool{}
+				for k := 0; k < nR1; k++ {
+					o := <-r1
+					seen[SeenObs{Key: 0, Kind: o.Kind, Base: o.Base, Delta: o.Delta, AfterSet: true}] = true
+				}
+				d2, err := w.probe()
+				if err != nil {
+					w.cleanup()
+					return err
+				}
+				// the scheduled part: both stores in full, then R2 and a probe
+				var evs []Ev
+				for i := 0; i < 2; i++ {
+					evs = append(evs, Ev{Kind: "create", A: i}, Ev{Kind: "write", A: i, B: w.dataLen(i)}, Ev{Kind: "close", A: i}, Ev{Kind: "rename", A: i})
+				}
+				evs = append(evs, Ev{Kind: "get", A: 0}, Ev{Kind: "probe"})
+				r.c.Emit(w.input(false, evs), Obs{Gets: []ReadObs{r2}, Probes: []DirObs{d2}, Seen: []SeenObs{}, Failed: []int{}})
+				// the overlapping readers R1: old or new, never a miss or anything else
+				var list []SeenObs
+				for x := range seen {
+					list = append(list, x)
+				}
+				sort.Slice(list, func(a, b int) bool {
+					if list[a].Base != list[b].Base {
+						return list[a].Base < list[b].Base
+					}
+					return list[a].Delta < list[b].Delta
+				})
+				r.c.Emit(w.input(true, []Ev{}), Obs{Gets: []ReadObs{}, Probes: []DirObs{}, Seen: list, Failed: []int{}})
+				r.c.Count("experiment=read-across-store")
+				if busy {
+					r.c.Count("read-across-store=earlier-reader-still-busy-when-later-reader-returned")
+				} else {
+					r.c.Count("read-across-store=earlier-reader-already-done")
+				}
+				w.cleanup()
+			}
+		}
 	}
 	return nil
 }
